@@ -7,12 +7,16 @@ from common import LEAN_DIR, VERIF
 
 # property -> bridge modules ; function names are only for messages
 BRIDGES = {
-    "C01": ["Barril.Bridge.Posc", "Barril.Bridge.PoscTable"],
+    "C01": ["Barril.Bridge.Posc", "Barril.Bridge.PoscTable", "Barril.Bridge.Conv"],
+    "C02": ["Barril.Bridge.Conv"],
     "C03": ["Barril.Bridge.Alg"],
     "C04": ["Barril.Bridge.Alg"],
+    "C08": ["Barril.Bridge.Cmp"],
     "C11": ["Barril.Bridge.Fixed"],
-    "C12": ["Barril.Bridge.Valid"],
+    "C12": ["Barril.Bridge.Valid", "Barril.Bridge.Array"],
+    "C17": ["Barril.Bridge.Mgr"],
     "C18": ["Barril.Bridge.Frac"],
+    "C20": ["Barril.Bridge.Str"],
 }
 
 GENERATED_FROM = {
@@ -20,8 +24,18 @@ GENERATED_FROM = {
     "Barril.Bridge.PoscTable": ["barril/units/posc.py:MakeCustomaryToBase", "barril/units/posc.py:MakeBaseToCustomary"],
     "Barril.Bridge.Alg": ["barril/units/unit_database.py:UnitDatabase._ConvertMatchingExp"],
     "Barril.Bridge.Valid": ["barril/units/_quantity.py:Quantity.CheckValue"],
+    "Barril.Bridge.Conv": ["barril/units/unit_database.py:UnitDatabase.Convert"],
+    "Barril.Bridge.Cmp": ["barril/units/_scalar.py:Scalar._GetValuesToCompare", "barril/units/_scalar.py:Scalar.__lt__",
+                          "barril/units/_scalar.py:Scalar.__le__", "barril/units/_scalar.py:Scalar.__gt__",
+                          "barril/units/_scalar.py:Scalar.__ge__"],
+    "Barril.Bridge.Array": ["barril/units/_array.py:Array._DoValidateValues", "barril/units/_quantity.py:Quantity.CheckValue"],
     "Barril.Bridge.Fixed": ["barril/units/_fixedarray.py:FixedArray.CheckValues",
                             "barril/units/_fixedarray.py:FixedArray._InternalCreateWithQuantity"],
+    "Barril.Bridge.Mgr": ["barril/units/unit_system_manager.py:UnitSystemManager._CheckUnitSystemMapping",
+                          "barril/units/unit_system_manager.py:UnitSystemManager.AddUnitSystem",
+                          "barril/units/unit_system_manager.py:UnitSystemManager.RemoveUnitSystem"],
+    "Barril.Bridge.Str": ["barril/units/_quantity.py:Quantity._MakeStr",
+                          "barril/units/_quantity.py:Quantity._CreateUnitsWithJoinedExponentsString"],
     "Barril.Bridge.Frac": ["barril/basic/fraction/_fraction.py:Fraction.__old_cmp__"],
 }
 
